@@ -222,6 +222,11 @@ type ChunkWriter struct {
 
 // WriteChunk is called with chunked ServiceInfos.
 func (w *ChunkWriter) WriteChunk(kv *KV) error {
+	// The service info list of a received message may contain null
+	if kv == nil {
+		return errors.New("service info contains a null key-value pair")
+	}
+
 	// If the key hasn't changed, keep streaming data. Before the first chunk
 	// there is no writer yet, whatever the key is (it may be empty, which is
 	// what prevKey starts as).
@@ -239,7 +244,18 @@ func (w *ChunkWriter) WriteChunk(kv *KV) error {
 
 	// Create a new IO pipe and send the reader to the UnchunkReader
 	pr, pw := w.pipe()
-	w.readers <- pr
+	if cap(w.readers) > 0 {
+		// A buffered queue is filled before its reader runs (a round of
+		// received service info is only processed once it is complete), so
+		// waiting for room when it is full would wait forever.
+		select {
+		case w.readers <- pr:
+		default:
+			return fmt.Errorf("more than %d service info messages queued without being read", cap(w.readers))
+		}
+	} else {
+		w.readers <- pr
+	}
 	w.w = pw
 	w.prevKey = kv.Key
 
@@ -454,6 +470,10 @@ func (w *UnchunkWriter) CloseWithError(err error) error {
 
 // NewChunkInPipe creates a ChunkWriter and UnchunkReader pair. All chunks sent
 // to the writer will be unchunked and emitted from the reader.
+//
+// With buffers > 0 up to that many service info messages can be written before
+// any is read; WriteChunk fails, rather than blocks, when a further message
+// would exceed the buffer.
 func NewChunkInPipe(buffers int) (*UnchunkReader, *ChunkWriter) {
 	readers := make(chan pipeReader)
 	pipe := func() (pipeReader, pipeWriter) { return io.Pipe() }
